@@ -771,6 +771,15 @@ fn run_scenario(out: &mut impl Write, id: &str, crc: &str, retries: &str, be: Ba
                 Ok("unit".to_string())
             }
             "gt" => Ok(format!("type {}", match card.get_card_type() { None => "None".to_string(), Some(t) => format!("{:?}", t) })),
+            // the card in the slot is exchanged for one of the same kind with another CSD (no driver call: the host
+            // is expected to call mark_card_uninit next)
+            "sw" => {
+                if let Backend::Sim(c) = &mut bus.borrow_mut().be {
+                    let v = unhex(p[1]);
+                    c.csd.copy_from_slice(&v);
+                }
+                Ok("unit".to_string())
+            }
             _ => panic!("bad call"),
         }
         .map_err(|e| err_name(&e))))
@@ -792,6 +801,11 @@ fn run_scenario(out: &mut impl Write, id: &str, crc: &str, retries: &str, be: Ba
         }
         if let Some(e) = exp {
             writeln!(out, "{}", e).unwrap();
+        }
+        if p[0] == "sw" {
+            if let Backend::Sim(c) = &bus.borrow().be {
+                writeln!(out, "O cardat {} {:?} nblocks {} bytes {}", k, c.kind, c.nblocks(), spec_capacity_bytes(&c.csd)).unwrap();
+            }
         }
         if is_sim {
             if let Backend::Sim(c) = &bus.borrow().be {
